@@ -46,6 +46,24 @@ fn make(mw: &str, kv: &Kv) -> Option<Box<dyn Mw>> {
     }
 }
 
+/// A tracing subscriber that is interested in everything and records nothing: with it installed every
+/// `tracing::debug!`/`trace!` call site of the crates is enabled, so the expressions in their fields are evaluated —
+/// as they are in a deployment that logs at DEBUG. Logging must not change what a call does.
+struct EverythingEnabled;
+impl tracing::Subscriber for EverythingEnabled {
+    fn enabled(&self, _: &tracing::Metadata<'_>) -> bool {
+        true
+    }
+    fn new_span(&self, _: &tracing::span::Attributes<'_>) -> tracing::span::Id {
+        tracing::span::Id::from_u64(1)
+    }
+    fn record(&self, _: &tracing::span::Id, _: &tracing::span::Record<'_>) {}
+    fn record_follows_from(&self, _: &tracing::span::Id, _: &tracing::span::Id) {}
+    fn event(&self, _: &tracing::Event<'_>) {}
+    fn enter(&self, _: &tracing::span::Id) {}
+    fn exit(&self, _: &tracing::span::Id) {}
+}
+
 fn main() {
     let args: Vec<String> = std::env::args().collect();
     if args.len() < 2 {
@@ -58,6 +76,9 @@ fn main() {
         return;
     }
     std::panic::set_hook(Box::new(|_| {}));
+    if std::env::var("TRH_NO_TRACING").is_err() {
+        let _ = tracing::subscriber::set_global_default(EverythingEnabled);
+    }
     // no progress for this long (wall time) = a hung case: see `world::start_watchdog`
     start_watchdog(std::env::var("TRH_HANG_MS").ok().and_then(|v| v.parse().ok()).unwrap_or(5000));
     let text = std::fs::read_to_string(&args[1]).expect("read ops file");
